@@ -83,4 +83,138 @@ example : register ["x_y"] ⟨"x", "y", true, true, false⟩ = .alreadyConnected
   decide +kernel
 example : register [] ⟨"x", "y", true, true, false⟩ = .ok "x_y" := by decide +kernel
 
+/-! ## No take-over, over histories of the websocket table
+
+`no_takeover` above is the guard of one registration against a given set of connected ids. The clause of
+the property speaks about what happens over time: while an engine is connected (its id maps to its
+channel in `AggregatorDispatcher._engine_id_channel_map`), no registration for that id is accepted and
+no other websocket can become the owner of the id — whatever else is registered, connected or
+disconnected in between. -/
+
+def KeysNodup (s : Conns) : Prop := s.ids.Nodup
+
+/-- `id` is connected through channel `ch`. -/
+def Owns (s : Conns) (id : String) (ch : Nat) : Prop := (id, ch) ∈ s.map
+
+theorem owner_unique : ∀ (l : List (String × Nat)), (l.map (·.1)).Nodup →
+    ∀ id a b, (id, a) ∈ l → (id, b) ∈ l → a = b
+  | [], _, _, _, _, h, _ => by cases h
+  | (k, v) :: l, hn, id, a, b, ha, hb => by
+    simp only [List.map_cons, List.nodup_cons, List.mem_map, not_exists, not_and] at hn
+    simp only [List.mem_cons, Prod.mk.injEq] at ha hb
+    rcases ha with ⟨rfl, rfl⟩ | ha <;> rcases hb with ⟨h1, rfl⟩ | hb
+    · rfl
+    · exact absurd rfl (hn.1 (id, b) hb)
+    · exact absurd h1.symm (fun e => hn.1 (id, a) ha (e ▸ rfl))
+    · exact owner_unique l hn.2 id a b ha hb
+
+theorem keysNodup_init : KeysNodup {} := List.nodup_nil
+
+theorem keysNodup_step (s : Conns) (op : COp) (h : KeysNodup s) : KeysNodup (cstep s op).1 := by
+  unfold KeysNodup Conns.ids at *
+  cases op with
+  | register m => exact h
+  | connect ch id =>
+    cases id with
+    | none => exact h
+    | some id =>
+      simp only [cstep]
+      split
+      · exact h
+      · rename_i hc
+        simp only [List.map_append, List.map_cons, List.map_nil]
+        refine List.nodup_append.mpr ⟨h, (by simp), ?_⟩
+        intro a ha b hb
+        simp only [List.mem_singleton] at hb
+        subst hb
+        intro hab
+        subst hab
+        exact hc (by simpa [Conns.ids] using ha)
+  | disconnect ch =>
+    simp only [cstep]
+    split
+    · exact (List.filter_sublist.map _).nodup h
+    · exact h
+
+theorem keysNodup_run (s : Conns) (ops : List COp) (h : KeysNodup s) : KeysNodup (crun s ops) := by
+  induction ops generalizing s with
+  | nil => exact h
+  | cons o os ih => exact ih _ (keysNodup_step s o h)
+
+/-- One event: unless the owning channel itself disconnects, the id stays with its channel. -/
+theorem owner_kept_step (s : Conns) (op : COp) (id : String) (ch : Nat)
+    (hn : KeysNodup s) (ho : Owns s id ch) (hop : ∀ c, op = .disconnect c → c ≠ ch) :
+    Owns (cstep s op).1 id ch := by
+  unfold Owns at *
+  cases op with
+  | register m => exact ho
+  | connect c i =>
+    cases i with
+    | none => exact ho
+    | some i =>
+      simp only [cstep]
+      split
+      · exact ho
+      · exact List.mem_append_left _ ho
+  | disconnect c =>
+    simp only [cstep]
+    split
+    · rename_i e he
+      have hmem := List.mem_of_find?_eq_some he
+      have hval : e.2 = c := by simpa using List.find?_some he
+      refine List.mem_filter.mpr ⟨ho, ?_⟩
+      simp only [bne_iff_ne, ne_eq]
+      intro hid
+      have : (id, e.2) ∈ s.map := by rw [hid]; exact hmem
+      have := owner_unique s.map hn id ch e.2 ho this
+      exact hop c rfl (by rw [← hval, this])
+    · exact ho
+
+/-- While `id` is owned, a registration for it is refused and a second websocket reporting it is closed
+    without touching the table. -/
+theorem owned_id_refused (s : Conns) (id : String) (ch : Nat) (ho : Owns s id ch) :
+    (∀ m, m.secretOk = true → engineId m.computer m.uod = id →
+        (cstep s (.register m)).2 = .reg (.alreadyConnected id)) ∧
+    (∀ c, cstep s (.connect c (some id)) = (s, .closed)) := by
+  have hc : s.ids.contains id = true := by
+    simp only [List.contains_iff_mem, Conns.ids, List.mem_map]
+    exact ⟨(id, ch), ho, rfl⟩
+  constructor
+  · intro m hs hid
+    simp only [cstep, register, hs, Bool.not_true, Bool.false_eq_true, if_false, hid, hc, if_true]
+  · intro c
+    simp only [cstep, hc, if_true]
+
+/-- **No take-over, all histories.** From any table reachable from the empty one: if `id` is connected
+    through `ch`, then after any sequence of registrations, connects and disconnects that does not
+    contain the disconnect of `ch` itself, `id` is still connected through `ch` (and through nothing else),
+    so by `owned_id_refused` every registration for it in between was refused. -/
+theorem no_takeover_history (s : Conns) (ops : List COp) (id : String) (ch : Nat)
+    (hn : KeysNodup s) (ho : Owns s id ch) (hops : ∀ o ∈ ops, ∀ c, o = .disconnect c → c ≠ ch) :
+    Owns (crun s ops) id ch ∧ ∀ ch', Owns (crun s ops) id ch' → ch' = ch := by
+  induction ops generalizing s with
+  | nil => exact ⟨ho, fun ch' h' => owner_unique s.map hn id ch' ch h' ho⟩
+  | cons o os ih =>
+    exact ih _ (keysNodup_step s o hn)
+      (owner_kept_step s o id ch hn ho (hops o (List.mem_cons_self ..)))
+      (fun o' ho' => hops o' (List.mem_cons_of_mem _ ho'))
+
+/-- Every intermediate registration for an owned id is refused (the history form of `no_takeover`). -/
+theorem registrations_refused_while_connected (s : Conns) (pre : List COp) (m : RegMsg) (id : String) (ch : Nat)
+    (hn : KeysNodup s) (ho : Owns s id ch) (hops : ∀ o ∈ pre, ∀ c, o = .disconnect c → c ≠ ch)
+    (hs : m.secretOk = true) (hid : engineId m.computer m.uod = id) :
+    (cstep (crun s pre) (.register m)).2 = .reg (.alreadyConnected id) :=
+  (owned_id_refused _ id ch (no_takeover_history s pre id ch hn ho hops).1).1 m hs hid
+
+/-- Non-vacuity: connect x_y on channel 1; a second websocket claiming x_y is closed, a registration for
+    (x, y) is refused, another engine comes and goes; x_y is still with channel 1. After channel 1
+    disconnects the id is free again. -/
+example :
+    let s := crun {} [.connect 1 (some "x_y"), .connect 2 (some "x_y"), .register ⟨"x", "y", true, true, false⟩,
+                      .connect 3 (some "p_q"), .disconnect 3, .disconnect 2]
+    s.map = [("x_y", 1)] ∧
+    (cstep s (.register ⟨"x", "y", true, true, false⟩)).2 = .reg (.alreadyConnected "x_y") ∧
+    (cstep (cstep s (.disconnect 1)).1 (.register ⟨"x", "y", true, true, false⟩)).2 = .reg (.ok "x_y") := by
+  decide +kernel
+
 end OPM.C38
